@@ -593,3 +593,42 @@ Definition screen_of_path (p : plate_path) : option spath := screen_of (Some p).
 (* the result of examine in the translation's monad *)
 Definition sres_of_xres {A} (r : xres A) : sres A :=
   match r with XOk a => SOk a | XNamed w s => SNamed w s end.
+
+(* -- run_next_retrospective_step / run_next_prospective_step: the file-system actions of a call are appended to a list
+   (the translation's state variable `acts`); what the script reads from the output directory it reads from the tree as
+   it is THEN: the tree at entry after the actions done so far *)
+Definition ename := unit.                         (* the experiment name (basename of --screen): not modelled *)
+Definition tree_after (f : fs) (done : list action) : fs := fold_left (fun f a => apply_action a f) done f.
+(* get_selected_plates(outdir/iter_<i>): the recorded selections, None when there are none *)
+Definition get_selected (f : fs) (i : Z) : option (list Z) :=
+  match selected_plates f i with [] => None | l => Some l end.
+(* get_test_screen_from_job_output(outdir/iter_<i>/plate_<j>): it globs for training.screen.h5 *)
+Definition test_screen_of (f : fs) (s : step) : option spath :=
+  if has_training f s then Some (SFile s KTraining) else None.
+(* get_theta_and_dist_chunks(outdir/iter_<i>/plate_<j>): ValueError unless both globs match; the answer names that directory *)
+Definition theta_chunks (f : fs) (done : list action) (s : step) : sres step :=
+  if has_thetas_dist f s then SOk s else SRaised done 2.
+(* run_*: the command line is built from the arguments; a None among them is a TypeError (' '.join) before anything is
+   started; otherwise the pipeline is launched *)
+Definition launch_cmd (done : list action) (s : step) (l : option launch) : sres (list action) :=
+  match l with Some l => SOk (done ++ [ALaunch s l]) | None => SRaised done 9 end.
+Definition first_cmd (training test : option spath) : option launch :=
+  match training, test with Some tr, Some te => Some (LFirst tr te) | _, _ => None end.
+Definition next_cmd (screen : option spath) (thetas_from : step) (excludes : option (list Z)) : option launch :=
+  match screen with
+  | Some sp => Some (LNext sp thetas_from (match excludes with Some l => l | None => [] end))   (* excludes=None: no --excludes *)
+  | None => None
+  end.
+
+(* what a call of run_next_* does and hands back, as the translation expresses it: (return value, actions) *)
+Definition result_of_plan (md : mode) (bs : Z) (p : plan) : sres (bool * list action) :=
+  match p with
+  | PNamed w s => SNamed w s
+  | PDone => SOk (false, [])
+  | PActs l =>
+      match rev l with
+      | ALaunch s _ :: _ => SOk (match md with Retro => true | Prosp => snd s <? bs - 1 end, l)
+      | AFail w :: r => SRaised (rev r) w
+      | _ => SRaised l 0
+      end
+  end.
